@@ -125,8 +125,8 @@ Theorem outer_cache_race : forall cap pre post misses len n i j k kj,
   race cap (tm_exec pre post (outer_cache_body misses) (fun _ => []) (fun _ => false) len n).
 Proof.
   intros cap pre post misses len n i j k kj Hne Hi Hj Hk Hkj Hm.
-  unfold tm_exec, tm_workers.
-  apply (fj_race pre (tm_post ++ post) _ cap i j (mkAcc Wr (Var "outer.cache") []) (mkAcc Rd (Var "outer.cache") []) Hne).
+  unfold tm_exec, tm_exec_with, tm_workers.
+  apply (fj_race pre (tm_post hl_current ++ post) _ cap i j (mkAcc Wr (Var "outer.cache") []) (mkAcc Rd (Var "outer.cache") []) Hne).
   - rewrite nth_range_workers by exact Hi. apply in_or_app. left. apply in_flat_map.
     exists k. split; [exact Hk|]. unfold tm_iter, outer_cache_body. rewrite Hm. cbn. auto.
   - rewrite nth_range_workers by exact Hj. apply in_or_app. left. apply in_flat_map.
@@ -146,18 +146,18 @@ Proof.
 Qed.
 
 (* ---- loaders ------------------------------------------------------------------------------------ *)
-Lemma consumer_accs : forall m a, In (SAcc a) (consumer false m) ->
+Lemma consumer_accs : forall pc m a, In (SAcc a) (consumer Never pc m) ->
   a_loc a = Var "recordSet" \/ a = mkAcc Rd (Var "err") [].
 Proof.
-  intros m a H. unfold consumer in H. apply in_app_or in H. destruct H as [H|H].
+  intros pc m a H. unfold consumer in H. apply in_app_or in H. destruct H as [H|H].
   - apply in_flat_map in H. destruct H as [k [_ H]]. cbn in H.
     destruct H as [H|[H|[H|[]]]]; try discriminate; inversion H; subst; left; reflexivity.
   - cbn in H. destruct H as [H|[H|[H|[]]]]; try discriminate. inversion H. right. reflexivity.
 Qed.
 
-Lemma producer_accs : forall m a, In (SAcc a) (producer false m false) -> a = mkAcc Rd (Var "err") [].
+Lemma producer_accs : forall pc m a, In (SAcc a) (producer Never pc m false) -> a = mkAcc Rd (Var "err") [].
 Proof.
-  intros m a H. unfold producer in H. apply in_app_or in H. destruct H as [H|H].
+  intros pc m a H. unfold producer in H. apply in_app_or in H. destruct H as [H|H].
   - apply in_flat_map in H. destruct H as [k [_ H]]. cbn in H. destruct H as [H|[]]. discriminate.
   - cbn in H. destruct H as [H|[H|[]]]; try discriminate. inversion H. reflexivity.
 Qed.
@@ -166,7 +166,7 @@ Qed.
    two loader goroutines share nothing they both touch with a write, for every number of rows *)
 Theorem site_loader_drf_except_pos : forall cap m, race_free cap (loader_exec false m false).
 Proof.
-  intros cap m. unfold loader_exec. apply fjs_race_free.
+  intros cap m. unfold loader_exec, loader_exec_gen. apply fjs_race_free.
   intros i j a b Hne Ha Hb Hc.
   destruct i as [|[|i]], j as [|[|j]]; cbn [nth] in Ha, Hb; try lia;
     try (destruct i; destruct Ha); try (destruct j; destruct Hb).
@@ -185,8 +185,37 @@ Qed.
 Theorem loader_pos_race : race loader_cap (loader_exec true 2 false).
 Proof. apply (race_witness_sound loader_cap _ (1, 1) (2, 4)). vm_compute. reflexivity. Qed.
 
+(* scaled-down instances (capacity 2), decided by computing happens-before: the code as it stands
+   races; reading pos only once `cap` rows have arrived does not; the error slot is ordered by
+   close(rowch) when the reader fails *)
+Lemma loader_small_current_races : race small_cap (loader_exec_gen EveryRow 2 4 false).
+Proof. apply (race_witness_sound small_cap _ (1, 1) (2, 4)). vm_compute. reflexivity. Qed.
+Lemma loader_small_fixed_race_free : race_free small_cap (loader_exec_gen AtCap 2 4 false).
+Proof. apply race_freeb_sound. vm_compute. reflexivity. Qed.
+Lemma loader_small_error_path_race_free : race_free small_cap (loader_exec_gen AtCap 2 3 true).
+Proof. apply race_freeb_sound. vm_compute. reflexivity. Qed.
+
+(* ---- the cache of outer records after d44f076: one per goroutine ---------------------------------- *)
+Theorem site_outer_cache_drf : forall cap pre post misses len n,
+  race_free cap (fj_exec pre post (outer_cache_workers misses len n)).
+Proof.
+  intros cap pre post misses len n. apply fj_race_free.
+  intros i j a b Hne Ha Hb Hc. apply conflict_loc in Hc.
+  assert (G : forall i a, In a (nth i (outer_cache_workers misses len n) []) -> a_loc a = Idx "outer.cache" i).
+  { clear. intros i a H. unfold outer_cache_workers in H.
+    destruct (Nat.lt_ge_cases i n) as [Hi|Hi].
+    - rewrite (nth_map_seq _ _ n i [] Hi) in H. apply in_flat_map in H. destruct H as [k [_ H]].
+      destruct H as [<-|H]; [reflexivity|]. destruct (misses k); [|destruct H]. destruct H as [<-|[]]. reflexivity.
+    - rewrite nth_overflow in H by (rewrite map_length, seq_length; exact Hi). destruct H. }
+  rewrite (G i a Ha), (G j b Hb) in Hc. inversion Hc. contradiction.
+Qed.
+
 (* ---- signal goroutine -------------------------------------------------------------------------- *)
 (* F-C13-3: the handler goroutine writes signalReceived when a signal arrives; commandAction reads
    it after fn returned, with nothing in between that orders the two *)
 Theorem signal_race : race signal_cap signal_exec.
 Proof. apply (race_witness_sound signal_cap _ (0, 2) (1, 1)). vm_compute. reflexivity. Qed.
+
+(* with hooks/fix_signal_received_mutex.patch both accesses hold signalMutex *)
+Theorem signal_fixed_race_free : race_free signal_cap signal_exec_fixed.
+Proof. apply race_freeb_sound. vm_compute. reflexivity. Qed.
